@@ -56,6 +56,69 @@ CHECKS = {
         note=TRUST + " No shared tasks (no unique sequential answer under them).",
         design="4 C07",
     ),
+    "C08": dict(
+        level="fault_enumeration",
+        technique="runtime monitoring over histories: in-body active-task probes, post-computation cleanliness checks on public scheduler state, canary differential against a fresh scheduler, fault injection of every failure class",
+        text="Histories of 3-10 computations on one never-reset scheduler, each with failures from every class (task steps, items, flushes, lazy futures, context resume/pause, before-flush subscribers, NonAsync aborts, recursion-guard trips at top level and inside nested sync calls): get_active_task() is the running task at every step and after every nested call, None afterwards; the scheduler shows 0 tasks / no active task after every computation; a canary computation run next has exactly the trace it has on a fresh scheduler.",
+        note=TRUST + " BaseException failures are outside the statement and not injected.",
+        design="4 C08",
+    ),
+    "C09": dict(
+        level="exploration",
+        technique="runtime monitoring: exhaustive enumeration of the decorator x binding x argument-pattern x body matrix, differential against a plain-Python twin",
+        text="Every cell of the finite matrix (10 decorator kinds x up to 10 bindings incl. falsy instances and subclasses x 6 argument patterns x 3 body kinds = 1422 cells) is executed under 6-8 calling conventions and compared with a plain-Python twin (sync_fn's twin for the sync call); classification helpers are compared with how the object can actually be called. The matrix is enumerated completely on both builds.",
+        note=TRUST + " The matrix itself is a finite sample of 'every kind of callable'.",
+        design="4 C09",
+    ),
+    "C10": dict(
+        level="exploration",
+        technique="runtime monitoring: explicit reference state machine, exhaustive operation sequences up to length 4/5 over 12 future kinds plus random longer ones",
+        text="All operation sequences up to length 4 (thorough 5) over 9 operations on 12 future kinds, and random sequences up to length 15: every result/exception, error-instance identity, provider/body run counts and per-completion subscriber notifications must match the reference state machine.",
+        note=TRUST + " Re-running consumed tasks/batches after reset_unsafe() is not modelled.",
+        design="4 C10",
+    ),
+    "C11": dict(
+        level="exploration",
+        technique="runtime monitoring: reference batch state machine, exhaustive operation sequences x flush-body modes, also on the built-in DebugBatch",
+        text="All sequences up to length 4 (thorough 5) over 10 operations x 8 flush-body modes on a BatchBase subclass and on DebugBatch: results/exceptions, flush-body run counts, items complete before the batch announces completion, leftover items get the flush error instance / not-set AssertionError, items created during the flush join a fresh pending batch.",
+        note=TRUST,
+        design="4 C11",
+    ),
+    "C12": dict(
+        level="exploration",
+        technique="runtime monitoring: model key -> in-flight task maintained from returned objects and on_computed events; identity and execution-count oracles over seeded call histories x flush orders",
+        text="Random histories of calls (6 spellings, 5 callables incl. methods on two instances and a static method), awaits, flush-passing waits, dirty() and synchronous self re-entry across 2-6 pending actors: a call from outside the running body returns the in-flight task (identity) or a fresh one; one body execution per awaited task; identical value/error object for all awaiters.",
+        note=TRUST + " Calls issued while the in-flight task's own step is on the stack are unconstrained.",
+        design="4 C12",
+    ),
+    "C13": dict(
+        level="exploration",
+        technique="runtime monitoring: reference LRU / per-instance / refresh-time caches, hit-or-miss read off fresh tokens and the execution log, scripted clock",
+        text="Sequential call histories over small key spaces in 6 argument spellings against alru_cache (function, method, key_fn), acached_per_instance (instances dropped and collected) and alazy_constant (ttl with scripted clock, dirty()): each call must be the reference cache's hit (no body run, stored value) or miss (one body run, fresh value), raising bodies are not cached, eviction follows LRU with recency update.",
+        note=TRUST + " Clock never sits on a ttl boundary.",
+        design="4 C13",
+    ),
+    "C14": dict(
+        level="exploration",
+        technique="runtime monitoring: differential against Python builtins with identity comparison; flush counting; exhaustive (k, max_tries) grid for aretry",
+        text="Seeded inputs (unorderable distinguishable elements, duplicates, equal keys, None, numerically equal values) as list/tuple/iterator/generator with blocking or non-blocking async keys: each helper must return what the builtin returns with the synchronous twin (element identity) or raise the same exception type, in exactly one flush; aretry over the full 6x5 grid.",
+        note=TRUST + " Inputs that are bad in two independent ways may surface either error.",
+        design="4 C14",
+    ),
+    "C17": dict(
+        level="exploration",
+        technique="runtime monitoring: differential against the sequential list of Values, consumption counter inside the generator body, guard/exhaustion probes",
+        text="Random generator bodies (awaits of items/tasks/structures, Values, trailing awaits, nested generators): list_of_generator, take_first for every n in 0..len+2 with the body's own operation counter, repeated take_first, END marker never leaking, RuntimeError on each premature advance, StopIteration on each advance after exhaustion.",
+        note=TRUST,
+        design="4 C17",
+    ),
+    "C19": dict(
+        level="exploration",
+        technique="runtime monitoring: exhaustive enumeration of the target x replacement x activation x exit x composition matrix with recording replacements",
+        text="Every cell of the finite matrix (5 targets x 6 replacements x 4 activations incl. class decoration x exit paths x single/nested/sequential x patch/patch.object = 1350 cells): the four conventions reach the replacement once each with the same recorded arguments and equal results; non-callables installed as is; owner.__dict__ entry is the original after every exit path.",
+        note=TRUST + " unittest.mock is trusted.",
+        design="4 C19",
+    ),
 }
 
 NOT_BUILT = "check not built yet in this session (work in progress; the design in DESIGN.md section 4 applies)"
